@@ -25,6 +25,30 @@ where Self: Sized {
 }
 
 
+//------------ read_vec ------------------------------------------------------
+
+/// Reads `len` bytes from `source` into a new vec.
+///
+/// The vec grows as data arrives rather than being allocated up front, so a
+/// corrupt length field cannot make us allocate (or fail to allocate) more
+/// than there actually is to read.
+fn read_vec<R: io::Read>(
+    source: &mut R, len: usize
+) -> Result<Vec<u8>, ParseError> {
+    let limit = u64::try_from(len).map_err(|_| {
+        ParseError::format("data block too large")
+    })?;
+    let mut bits = Vec::with_capacity(cmp::min(len, 65536));
+    let read = io::Read::read_to_end(
+        &mut io::Read::take(io::Read::by_ref(source), limit), &mut bits
+    )?;
+    if read != len {
+        return Err(io::Error::from(io::ErrorKind::UnexpectedEof).into())
+    }
+    Ok(bits)
+}
+
+
 //------------ u8 ------------------------------------------------------------
 
 impl<W: io::Write> Compose<W> for u8 {
@@ -146,8 +170,7 @@ impl<R: io::Read> Parse<R> for uri::Rsync {
         let len = usize::try_from(u32::parse(source)?).map_err(|_| {
             ParseError::format("URI too large for this system")
         })?;
-        let mut bits = vec![0u8; len];
-        source.read_exact(&mut bits)?;
+        let bits = read_vec(source, len)?;
         Self::from_bytes(bits.into()).map_err(|err| {
             ParseError::format(format!("bad URI: {err}"))
         })
@@ -174,8 +197,7 @@ impl<R: io::Read> Parse<R> for uri::Https {
         let len = usize::try_from(u32::parse(source)?).map_err(|_| {
             ParseError::format("URI too large for this system")
         })?;
-        let mut bits = vec![0u8; len];
-        source.read_exact(&mut bits)?;
+        let bits = read_vec(source, len)?;
         Self::from_bytes(bits.into()).map_err(|err| {
             ParseError::format(format!("bad URI: {err}"))
         })
@@ -211,8 +233,7 @@ impl<R: io::Read> Parse<R> for Option<uri::Https> {
         let len = usize::try_from(len).map_err(|_| {
             ParseError::format("URI too large for this system")
         })?;
-        let mut bits = vec![0u8; len];
-        source.read_exact(&mut bits)?;
+        let bits = read_vec(source, len)?;
         uri::Https::from_bytes(bits.into()).map_err(|err| {
             ParseError::format(format!("bad URI: {err}"))
         }).map(Some)
@@ -239,8 +260,7 @@ impl<R: io::Read> Parse<R> for Bytes {
         let len = usize::try_from(u64::parse(source)?).map_err(|_| {
             ParseError::format("data block too large for this system")
         })?;
-        let mut bits = vec![0u8; len];
-        source.read_exact(&mut bits)?;
+        let bits = read_vec(source, len)?;
         Ok(bits.into())
     }
 }
@@ -271,8 +291,7 @@ impl<R: io::Read> Parse<R> for Option<Bytes> {
         let len = usize::try_from(len).map_err(|_| {
             ParseError::format("data block large for this system")
         })?;
-        let mut bits = vec![0u8; len];
-        source.read_exact(&mut bits)?;
+        let bits = read_vec(source, len)?;
         Ok(Some(bits.into()))
     }
 }
@@ -410,7 +429,7 @@ where
         // to be very big. We will hit the end of file if it was during
         // reading, so I don’t think we need any additional measures?
         let mut res = HashMap::with_capacity(
-            cmp::max(len, 65536)
+            cmp::min(len, 65536)
         );
         
         for _ in 0..len {
